@@ -704,11 +704,16 @@ func convert() {
 	})
 }
 
-// summaryBoth: an endpoint that carries both the current and the legacy spelling of the OpenAPI
-// summary key, at method level and at HTTP endpoint level, with different values.
+// summaryBoth: endpoints and a file server that carry both the current and the legacy spelling
+// of the OpenAPI summary key (method level, HTTP endpoint level, file server) with different
+// values.
 func summaryBoth() {
 	API("xsummary", func() { Title("summary") })
 	Service("sum", func() {
+		Files("/docs/{*path}", "public", func() {
+			Meta("openapi:summary", "file server summary from the openapi key")
+			Meta("swagger:summary", "file server summary from the swagger key")
+		})
 		Method("method_level", func() {
 			Meta("openapi:summary", "summary from the openapi key")
 			Meta("swagger:summary", "summary from the swagger key")
